@@ -13,7 +13,7 @@ import time
 
 VERIF = os.path.dirname(os.path.dirname(os.path.abspath(__file__)))
 REPO = os.environ.get("VERIF_REPO", "/repo")
-CACHE = os.path.join(VERIF, ".cache")
+CACHE = os.environ.get("VERIF_CACHE") or os.path.join(VERIF, ".cache")
 KANI_FLAGS = ["--no-default-features", "-Z", "stubbing", "-Z", "unstable-options", "--no-memory-safety-checks"]
 
 TRUSTED_BASE = [
@@ -90,6 +90,30 @@ def load_registry():
                     kv.setdefault("engine", "kani")
                     obls.append(kv)
                 i += 1
+    nbase = os.path.join(VERIF, "native", "src")
+    for root, _, files in os.walk(nbase):
+        for f in sorted(files):
+            if not f.endswith(".rs"):
+                continue
+            path = os.path.join(root, f)
+            rel = os.path.relpath(path, nbase)
+            lines = open(path).read().split("\n")
+            for i, ln in enumerate(lines):
+                if ln.strip().startswith("// @obl"):
+                    kv = parse_kv(ln.strip()[len("// @obl"):])
+                    name = None
+                    for j in range(i + 1, min(i + 6, len(lines))):
+                        m = re.match(r"\s*fn (\w+)\s*\(\)", lines[j])
+                        if m:
+                            name = m.group(1)
+                            break
+                    if not name:
+                        raise SystemExit("registry: no test after @obl at native/%s:%d" % (rel, i + 1))
+                    kv.update({"name": name, "harness": module_path(rel) + "::" + name, "file": os.path.join("native/src", rel),
+                               "props": kv.get("props", "").split(","), "engine": "native"})
+                    kv.setdefault("tier", "quick")
+                    kv["class"] = "bounded"
+                    obls.append(kv)
     vdir = os.path.join(VERIF, "contracts", "verus")
     reg = os.path.join(vdir, "registry.json")
     if os.path.exists(reg):
@@ -249,7 +273,10 @@ def run_pipe(scratch, obls, jobs, mem_gb, harness_timeout):
                 inconcl.append("unwinding bound too small: %s in %s" % (desc, where))
             elif kind == "unsupported":
                 inconcl.append("unsupported construct reachable: %s in %s" % (desc, where))
-            elif os.path.basename(loc.get("file") or "") == "kani_lib.c" or desc in MODEL_NOISE:
+            elif os.path.basename(loc.get("file") or "") == "kani_lib.c" or desc in MODEL_NOISE or (
+                    kind in ("safety_check", "precondition_instance") and ("/rustlib/src/rust/library/" in (loc.get("file") or "") or (loc.get("file") or "").startswith("library/kani"))):
+                # memory-model checks inside Kani's allocator model or inside the (trusted) standard library's unsafe code:
+                # /repo has no unsafe code, so these cannot be caused by it; CBMC's pointer abstraction cannot always discharge them
                 noise.append(desc)
             elif desc.startswith("BOUND:") or '"BOUND:' in desc:
                 inconcl.append("capacity of a substituted container exceeded: %s in %s" % (desc, where))
@@ -389,6 +416,85 @@ def native_playback(scratch, obl, pb):
 
 
 # ---------------------------------------------------------------------------
+# native bounded contract checks
+# ---------------------------------------------------------------------------
+
+def run_native(scratch, obls, tier):
+    """Injects the `verif_native` child modules into a plain copy of /repo and runs the selected tests natively
+    (real std collections, real cryptography).  Returns name -> result."""
+    nrepo = os.path.join(scratch, "native-repo")
+    subprocess.run(["rsync", "-a", "--delete", "--exclude", "/target", "--exclude", "/.git", REPO.rstrip("/") + "/", nrepo + "/"], check=True)
+    nbase = os.path.join(VERIF, "native", "src")
+    for root, _, files in os.walk(nbase):
+        for f in files:
+            if f != "verif_native.rs":
+                continue
+            rel = os.path.relpath(os.path.join(root, f), nbase)          # e.g. core/verif_native.rs
+            owner_dir = os.path.dirname(rel)                               # core   (or abe_policy/access_structure)
+            cand = [os.path.join(nrepo, "src", owner_dir + ".rs"), os.path.join(nrepo, "src", owner_dir, "mod.rs")]
+            if owner_dir == "":
+                cand = [os.path.join(nrepo, "src", "lib.rs")]
+            owner = next((c for c in cand if os.path.exists(c)), None)
+            if owner is None:
+                return {o["name"]: {"status": "missing", "reason": "lost anchor file for %s" % rel} for o in obls}, "none"
+            dst = os.path.join(nrepo, "src", rel)
+            os.makedirs(os.path.dirname(dst), exist_ok=True)
+            shutil.copy(os.path.join(root, f), dst)
+            with open(owner, "a") as fh:
+                fh.write("\n#[cfg(test)]\nmod verif_native;\n")
+    env = dict(os.environ)
+    env["CARGO_NET_OFFLINE"] = "true"
+    env["CARGO_TARGET_DIR"] = os.path.join(CACHE, "native-target")
+    env["VERIF_TIER"] = tier
+    env["RUST_BACKTRACE"] = "0"
+    res = {}
+    cmd = ["cargo", "test", "--offline", "--lib", "--release", "--"] + [o["harness"] for o in obls] + ["--exact", "--show-output", "--test-threads", os.environ.get("VERIF_JOBS", "8")]
+    logfile = os.path.join(scratch, "native.log")
+    t0 = time.time()
+    with open(logfile, "w") as fh:
+        try:
+            p = subprocess.run(cmd, cwd=nrepo, env=env, stdout=fh, stderr=subprocess.STDOUT, timeout=int(os.environ.get("VERIF_NATIVE_TIMEOUT", "3000")))
+            rc = p.returncode
+        except subprocess.TimeoutExpired:
+            rc = -9
+    wall = time.time() - t0
+    text = open(logfile, errors="replace").read()
+    built = "running " in text
+    for o in obls:
+        m = re.search(r"^test " + re.escape(o["harness"]) + r" \.\.\. (\w+)", text, re.M)
+        st = m.group(1) if m else None
+        r = {"status": "missing", "fails": [], "inconclusive": [], "checks": 0, "covers": 0, "covers_unsatisfied": [], "stats": {}, "wall_s": round(wall, 1)}
+        if st == "ok":
+            r["status"] = "Success"
+            r["checks"] = 1
+            mm = re.search(r"VERIF-COUNT " + re.escape(o["name"]) + r" (\d+)", text)
+            if mm:
+                r["checks"] = int(mm.group(1))
+        elif st == "FAILED":
+            r["status"] = "Failure"
+            sec = re.search(r"---- " + re.escape(o["harness"]) + r" stdout ----\n(.*?)(?=\n---- |\nfailures:)", text, re.S)
+            body = sec.group(1) if sec else ""
+            msgs = re.findall(r"panicked at [^\n]*:\n([^\n]*(?:\n(?!note:|stack backtrace)[^\n]+)*)", body)
+            msg = (msgs[0] if msgs else body[-400:]).strip()
+            pm = PROP_RE.match(msg)
+            r["fails"] = [{"props": pm.group(1).split("/") if pm else None, "description": msg[:600], "location": {"file": o["file"]}, "category": "native"}]
+            r["native"] = {"ran": True, "panics": [msg[:600]], "cmd": " ".join(cmd)}
+            r["playback"] = [{"test": o["harness"], "source": "native bounded check: the failing input is printed in the panic message", "values": []}]
+        else:
+            if not built:
+                r["inconclusive"] = ["native test binary did not build or crashed before running (rc=%s): %s" % (rc, text[-600:])]
+            elif rc != 0 and "test result" not in text:
+                # the test process died (abort / stack overflow): attribute to every test that did not report
+                r["status"] = "Failure"
+                r["fails"] = [{"props": None, "description": "the test process aborted (allocation failure, stack overflow or abort) while this check was running: " + text[-300:], "location": {"file": o["file"]}, "category": "native"}]
+                r["native"] = {"ran": True, "panics": [text[-300:]], "cmd": " ".join(cmd)}
+            else:
+                r["inconclusive"] = ["test not found in the output (lost anchor?)"]
+        res[o["name"]] = r
+    return res, " ".join(cmd)
+
+
+# ---------------------------------------------------------------------------
 # verus
 # ---------------------------------------------------------------------------
 
@@ -416,6 +522,22 @@ def main(argv):
         return setup()
     if argv[0] == "dev":
         return dev(argv[1:])
+    if argv[0] == "ndev":
+        pats = argv[1].split(",")
+        obls = [o for o in load_registry() if o["engine"] == "native" and any(p in o["name"] for p in pats)]
+        sc = Scratch("--keep" in argv)
+        try:
+            res, cmd = run_native(sc.dir, obls, os.environ.get("VERIF_TIER", "quick"))
+            for o in obls:
+                r = res[o["name"]]
+                print("%-50s %-8s wall=%ss count=%s" % (o["name"], r["status"], r.get("wall_s"), r.get("checks")))
+                for f in r["fails"]:
+                    print("     FAIL " + f["description"][:700])
+                for i_ in r["inconclusive"]:
+                    print("     INCONCLUSIVE " + i_[-1500:])
+            return 0
+        finally:
+            sc.cleanup()
     prop = argv[0]
     tier = os.environ.get("VERIF_TIER", "quick")
     keep = "--keep" in argv
@@ -501,6 +623,13 @@ def main(argv):
                         except Exception as e:  # noqa
                             results[o["name"]]["native"] = {"error": repr(e)}
                 clean_crate_artifacts()
+        native_obls = [o for o in obls if o["engine"] == "native"]
+        if native_obls:
+            with Lock():
+                nres, ncmd = run_native(scratch.dir, native_obls, tier)
+            checker_cmds.append(ncmd)
+            for o in native_obls:
+                results[o["name"]] = nres.get(o["name"], {"status": "missing"})
         if verus_obls:
             vres = run_verus(scratch.dir, verus_obls)
             for o in verus_obls:
@@ -579,6 +708,8 @@ def finish(prop, tier, seed, t_start, obls, results, violations, known_hits, inc
         native = r.get("native") or {}
         desc = (f.get("description") or "").strip('"')
         reproduced = bool(native.get("ran")) and any(desc[:60] in p for p in native.get("panics", []))
+        if o["engine"] == "native":
+            reproduced = True  # the check itself executed the real code on the failing input
         rep = {
             "property": prop, "obligation": o["name"], "harness": o.get("harness"), "engine": o["engine"],
             "function_under_contract": o.get("fn"), "shape": o.get("shape"), "class": o["class"],
@@ -604,7 +735,7 @@ def finish(prop, tier, seed, t_start, obls, results, violations, known_hits, inc
             "covers": r.get("covers"), "note": r.get("note"),
         })
     fns = sorted(set(o.get("fn") for o in obls if o.get("fn")))
-    backends = sorted(set(("CBMC 6.11 + CaDiCaL (via Kani 0.68)" if o["engine"] == "kani" else "Verus 0.2026.09.13 + Z3") for o in obls))
+    backends = sorted(set({"kani": "CBMC 6.11 + CaDiCaL (via Kani 0.68)", "verus": "Verus 0.2026.09.13 + Z3", "native": "native bounded enumeration (rustc, real crypto; bounded stand-in, not a proof)"}[o["engine"]] for o in obls))
     total_checks = sum((results.get(o["name"], {}).get("checks") or 0) for o in obls)
     solver_time = sum(((results.get(o["name"], {}).get("stats") or {}).get("runtime_solver_s") or 0) for o in obls)
     level = "proof" if all_proved else "other"
